@@ -12,6 +12,22 @@ NOT_APPLICABLE = {}
 HOOK_COMMITS = []
 
 CHECKS = {
+    "C06": {
+        "run": "^TestC06_",
+        "rule": ("cases = (row or chain, params, script, cut position, way of unsubscribing {harness goroutine, inside the observer's Next, 1-4 concurrent goroutines}); "
+                 "(constructor, script, sync/async source, number of concurrent Wait callers, slow terminal callback); (chain, terminating script) for Collect. "
+                 "Non-trivial = the cut is strictly inside the script, or >= 2 concurrent callers, or an asynchronous source; distinct by descriptor hash."),
+        "quick": {"rapid": 300, "timeout": 300, "shards": 4},
+        "thorough": {"rapid": 4000, "timeout": 3000, "shards": 16},
+        "assumptions": COMMON_ASSUMPTIONS + ["'never returns' verdicts use a 10 s real-time bound on operations that are synchronous and finite by construction; 'returns early' verdicts are one-sided"],
+        "technique": "property-based testing: history invariant over logical stamps (no callback begins after Unsubscribe returned), Wait/terminal ordering, Collect vs observer differential",
+        "level_text": ("Exploration. Every synchronous catalogue row (all params) and random chains are cut by Unsubscribe after every prefix of the script, from the emitting "
+                       "goroutine, from inside the observer's Next and from several goroutines at once: IsClosed is true as soon as Unsubscribe has returned, no callback "
+                       "begins after that stamp, Wait returns, repeated Unsubscribe is harmless. For all 8 constructors with synchronous and asynchronous producers, 1-3 "
+                       "concurrent Wait callers return only after the terminal callback has finished, never on an open stream, and always once it is closed. Collect on "
+                       "random chains returns exactly what an observer receives."),
+        "level_note": "Asynchronous / queueing rows (Delay, ObserveOn, ToChannel, timers) are cut in the bubble-based checks C16/C17.",
+    },
     "C03": {
         "run": "^TestC03_",
         "rule": ("(a) stateful: rapid action sequences over {Add (optionally panicking), AddUnsubscribable, Add(nil), Unsubscribe, Complete/Error, Wait} on a Subscription / "
